@@ -225,6 +225,16 @@ def run(p, script, seed=0):
                     lab = pd.DataFrame([row])
                     dup = rng.choice(list(lab.columns))
                     det.give_oracle_label(pd.concat([lab, lab[[dup]]], axis=1))
+            elif kind == "setref":
+                # the user hands over a NEW reference (as many rows as the first one) - whatever the protocol state is; labelled samples accepted so
+                # far in an open oracle round stay accepted
+                e["op"], e["nrows"] = "set_reference", p["n0"]
+                nr = pd.DataFrame([mk(rng.random() < 0.5, rng.random() < 0.7) for _ in range(p["n0"])])
+                if svc:
+                    for i in (0, 1, 2, 3):
+                        nr.loc[i, "y"] = i % 2
+                e["rows"] = ref_bits(nr, clf, p["k"])
+                det.set_reference(nr, target_name="y")
             elif kind == "label2":
                 e["nrows"] = 2
                 det.give_oracle_label(pd.DataFrame([mk(True, True), mk(False, True)]))
@@ -244,6 +254,8 @@ def random_script(rng, n):
         r = rng.random()
         if r < 0.45:
             out.append(("update", int(rng.random() < 0.5)))
+        elif r < 0.47:
+            out.append(("setref",))
         elif r < 0.5:
             out.append(("update2",))
         elif r < 0.9:
@@ -256,7 +268,7 @@ def random_script(rng, n):
 
 
 def sabotage(trace, rng):
-    ks = [k for k, e in enumerate(trace["ev"]) if e["op"] != "set_reference"]
+    ks = [k for k, e in enumerate(trace["ev"]) if e["op"] != "set_reference" and k > 0]
     k = rng.choice(ks)
     e = trace["ev"][k]
     w = rng.choice(["state", "waiting", "cur", "total"])
